@@ -4,7 +4,7 @@ CONSTANTS
   Lens <- LensC
   QLens <- QLensC
   MaxRet = 8
-  MaxOps = 4
+  MaxOps = 5
   ConnLen = 30
   Dev = {}
   Record = FALSE
